@@ -49,6 +49,71 @@ DEEP = FLAT_NESTED + [_deep("    x = " + "+".join(["1"] * n)) for n in (950, 100
         _deep("    x = " + " < ".join(["a"] * 1500))]
 
 
+# long vertical gaps: runs of empty / whitespace-only lines at the start, in the middle and at the end of a program
+GAPS = [("\n" * a) + "from nada_dsl import *\n" + g * k + "def nada_main():\n    p = Party(name='P')\n" + g * k +
+        "    a = SecretInteger(Input(name='a', party=p))\n" + g * k + "    return [Output(a, 'o', p)]\n" + g * b
+        for g in ("\n", "   \n", "\t\n", " \r\n") for k in (30, 64, 400) for a, b in ((0, 0), (40, 70))]
+DEEP = DEEP + GAPS
+
+
+SIDE_EFFECT = "import os\nwith open(os.path.join({root!r}, 'EXECUTED-' + __name__ + '.marker'), 'a') as _f:\n    _f.write('x')\nprint('EXECUTED', __name__)\n"
+PROJECT_IMPORTS = ["from auction.parties import *", "from auction.parties import alice", "import auction.parties", "import auction.parties as ap",
+                   "from auction import parties", "from auction import *", "import auction", "from helpers import *", "import helpers",
+                   "from . import parties", "from .parties import *", "from auction.parties.deeper import x", "import helpers, auction.parties",
+                   "from nada_dsl import *\nfrom auction.parties import *"]
+
+
+def project_layouts(res):
+    """The audited text as a file of a project: the program is (part of) a package `auction/` with a sibling `helpers.py`,
+    the auditor is started from the project directory as `python -m nada_dsl.audit --strict <file>` (the working directory
+    is importable).  Whatever import statements the program contains, no module of the project runs: each module of the
+    project leaves a marker file when its top-level code is executed."""
+    import os
+    import shutil
+    import subprocess
+    import sys
+    import tempfile
+    from .. import core
+    tmp = tempfile.mkdtemp(prefix="nvc16p")
+    n = 0
+    try:
+        os.makedirs(os.path.join(tmp, "auction", "parties_pkg"))
+        eff = SIDE_EFFECT.format(root=tmp)
+        for rel in ("auction/parties.py", "helpers.py", "auction/parties_pkg/__init__.py"):
+            with open(os.path.join(tmp, rel), "w", encoding="utf-8") as f:
+                f.write(eff + "from nada_dsl import *\nalice = 1\n")
+        body = "\n\n\ndef nada_main():\n    p = Party(name='P')\n    a = SecretInteger(Input(name='a', party=p))\n    return [Output(a, 'o', p)]\n"
+        env = dict(os.environ, PYTHONPATH=core.REPO, PYTHONDONTWRITEBYTECODE="1")
+        for k, imp in enumerate(PROJECT_IMPORTS):
+            for rel in ("auction/__init__.py", "main.py"):
+                text = eff + ("from nada_dsl import *\n" if "nada_dsl" not in imp else "") + imp + body
+                with open(os.path.join(tmp, rel), "w", encoding="utf-8") as f:
+                    f.write(text)
+                if rel == "main.py":
+                    with open(os.path.join(tmp, "auction", "__init__.py"), "w", encoding="utf-8") as f:
+                        f.write(eff)
+                try:
+                    p = subprocess.run([sys.executable, "-m", "nada_dsl.audit", "--strict", rel], cwd=tmp, env=env, capture_output=True,
+                                       text=True, timeout=120)
+                    out, rc = p.stdout + p.stderr, p.returncode
+                except subprocess.TimeoutExpired:
+                    out, rc = "", "timeout"
+                n += 1
+                markers = sorted(x for x in os.listdir(tmp) if x.endswith(".marker"))
+                for x in markers:
+                    os.remove(os.path.join(tmp, x))
+                if markers or "EXECUTED" in out:
+                    res.violation({"property": "C16", "kind": "project-layout", "import": imp, "file": rel, "markers": markers},
+                                  f"auditing {rel} of a project (python -m nada_dsl.audit --strict {rel}, started in the project directory) whose "
+                                  f"text contains `{imp}` executed module-level code of the project: {markers or out[-120:]}"[:400])
+                elif rc != 0:
+                    res.violation({"property": "C16", "kind": "project-layout", "import": imp, "file": rel, "rc": rc, "output": out[-300:]},
+                                  f"auditing {rel} whose text contains `{imp}` ended with {rc}: {out.strip().splitlines()[-1][:200] if out.strip() else ''}")
+    finally:
+        shutil.rmtree(tmp, ignore_errors=True)
+    return n
+
+
 BASES = ["bool", "int", "str", "Integer", "PublicInteger", "SecretInteger", "Boolean", "PublicBoolean", "SecretBoolean", "range", "Party"]
 
 
@@ -185,6 +250,7 @@ def run(res, tier):
                 break
         if len(samples) < 3 and mode in ("zoo", "corrupt"):
             samples.append({"mode": mode, "source": src[:500]})
+    nproj = project_layouts(res)
     nfrag, ndiff = fragments(res, rng, 300 if tier == "quick" else 5000)
     import ast
     allc = {k for k in dir(ast) if isinstance(getattr(ast, k), type) and issubclass(getattr(ast, k), (ast.stmt, ast.expr))
@@ -195,7 +261,7 @@ def run(res, tier):
                 "every ast statement and expression class, type errors, layout variation and token-level corruption; each run through "
                 "strict() + html() under a 4 s watchdog and a sys.addaudithook recording exec of code objects that do not come from a "
                 "file; non-trivial = distinct sources of >= 4 lines for which a report was produced",
-        "modes": modes, "outcomes": outcomes, "fragment_requests": nfrag, "fragment_disagreements": ndiff,
+        "modes": modes, "outcomes": outcomes, "project_layout_audits": nproj, "fragment_requests": nfrag, "fragment_disagreements": ndiff,
         "ast_node_classes_reached": len(classes & allc), "ast_node_classes_total": len(allc),
         "ast_node_classes_missing": sorted(allc - classes),
         "samples": samples,
@@ -205,6 +271,19 @@ def run(res, tier):
 
 
 def replay(obj):
+    if obj.get("kind") == "project-layout":
+        class _R:
+            violations = []
+
+            def violation(self, o, text):
+                if o.get("import") == obj.get("import") and o.get("file") == obj.get("file"):
+                    self.violations.append(text)
+        r = _R()
+        project_layouts(r)
+        print(r.violations or "ok")
+        if r.violations:
+            print("VIOLATION property=C16 replay=(replayed)")
+        return 1 if r.violations else 0
     buf = io.StringIO()
     with contextlib.redirect_stdout(buf):
         r = audit_run.run_strict(obj["source"], timeout=60)
